@@ -5,7 +5,7 @@ META = {
     "technique": "Coq proof (run invariant preserved by every branch of the run-advance function, lifted over all event streams) + model/impl differential on generated sequence programs",
     "design_ref": "DESIGN.md §7 C01",
     "level_text": "Theorems C01_* in coq/theories/Sase/Props.v about the executable model of the SASE engine; the model is tied to sase.rs by comparing, per event, every match (stack, captures, Kleene combination) and the run counters",
-    "level_note": "C01_matches_are_occurrences covers step order, event types, step filters (with captures) and .not clauses for every pattern/stream/configuration of the model; the partition clause is NOT proved (oracle + correspondence only). Predicate::Expr filters, .within, event-time mode, AND/OR/NOT pattern operators are outside the modelled class. Floats restricted to multiples of 0.5. Trusted: Coq kernel + vm_compute, hand-written model (differential tie), harness, Python reference judge",
+    "level_note": "C01_matches_are_occurrences covers step order, event types, step filters (with captures) and .not clauses for every pattern/stream/configuration of the model; the partition clause is C04_matches_single_key (coq/theories/Sase/Props.v), audited by coq/audit/C04.v. Predicate::Expr filters, .within, event-time mode, AND/OR/NOT pattern operators are outside the modelled class. Floats restricted to multiples of 0.5. Trusted: Coq kernel + vm_compute, hand-written model (differential tie), harness, Python reference judge",
 }
 
 
